@@ -74,7 +74,7 @@ func genC02Ev(depth int) *rapid.Generator[c02Ev] {
 			return c02Ev{K: "complete", Idx: rapid.IntRange(0, 100).Draw(t, "idx"), Outcome: rapid.IntRange(0, 2).Draw(t, "outcome"), Async: rapid.Bool().Draw(t, "async")}
 		case k < 15:
 			return c02Ev{K: "cancel", Idx: rapid.IntRange(0, 100).Draw(t, "idx")}
-		case k < 18 || depth > 0:
+		case k < 17 || depth > 0:
 			return c02Ev{K: "sleep", D: rapid.SampledFrom([]int{1, 4, 5, 15, 20, 30, 50, 1000}).Draw(t, "d")}
 		default:
 			return c02Ev{K: "burst", Acts: rapid.SliceOfN(genC02Ev(depth+1), 2, 4).Draw(t, "acts")}
@@ -182,6 +182,42 @@ func runC02InBubble(c c02Case) (out kit.Outcome) {
 		}
 		if v, ok := st.reg.gauge("queue_size", ""); ok && v != 0 {
 			return kit.Viol(kind+":end-backlog", "after every caller returned: queue_size gauge reports %v", v)
+		}
+		if st.partitioned() {
+			// after quiescence the stack must admit exactly like a freshly built one
+			fresh, err := buildStack(c.Stack, nil, nil, t0)
+			if err != nil {
+				return kit.Outcome{Harness: "fresh stack: " + err.Error()}
+			}
+			probe := []string{}
+			for i := 0; i < 2*c.Stack.Limit; i++ {
+				probe = append(probe, "a")
+			}
+			probe = append(probe, "zz", "b", "zz", "a", "b", "b", "zz")
+			var got1, got2 []interface{ OnIgnore() }
+			diff := ""
+			for i, k := range probe {
+				l1, ok1 := st.def.Acquire(stackKeyCtx(t0ctx(), k))
+				l2, ok2 := fresh.def.Acquire(stackKeyCtx(t0ctx(), k))
+				if ok1 {
+					got1 = append(got1, l1)
+				}
+				if ok2 {
+					got2 = append(got2, l2)
+				}
+				if ok1 != ok2 && diff == "" {
+					diff = fmt.Sprintf("probe request #%d (key %q, after %v): this limiter answered %v, a freshly built one %v", i+1, k, probe[:i], ok1, ok2)
+				}
+			}
+			for _, g := range got1 {
+				g.OnIgnore()
+			}
+			for _, g := range got2 {
+				g.OnIgnore()
+			}
+			if diff != "" {
+				return kit.Viol(kind+":end-not-like-new", "after every granted listener completed the limiter does not admit like a new one: %s", diff)
+			}
 		}
 		if !st.partitioned() {
 			lim := st.limit()
@@ -299,9 +335,18 @@ func (x *evExec) do(e c02Ev, inBurst bool) {
 	case "cancel":
 		all := w.snapshot()
 		var cand []int
+		// prefer callers that are blocked right now (a cancellation that can race with a hand-off)
 		for _, cl := range all {
-			if !cl.Canceled {
+			if !cl.Canceled && cl.Started && !cl.Done {
 				cand = append(cand, cl.ID)
+			}
+		}
+		if len(cand) == 0 || e.Idx%4 == 3 {
+			cand = cand[:0]
+			for _, cl := range all {
+				if !cl.Canceled {
+					cand = append(cand, cl.ID)
+				}
 			}
 		}
 		if len(cand) == 0 {
